@@ -8,23 +8,26 @@
 (***************************************************************************)
 EXTENDS BMIsa, BMIsaOpLists, Json, IOUtils, SequencesExt
 
-CONSTANTS RSizes, Rs, NMs, Ls, Os, Extras   \* parameter sets of the architecture enumeration
+CONSTANTS RSizes, Rs, NMs, Ls, Os, Extras, ModeLs   \* parameter sets of the architecture enumeration
 
 VARIABLE row
 
 NMq == {<<1, 1>>, <<2, 3>>, <<0, 1>>}
 NMt == {<<1, 1>>, <<2, 3>>, <<3, 2>>, <<0, 1>>, <<1, 0>>, <<4, 5>>, <<8, 9>>}
 
-ArchOf(rs, r, nm, l, o, ops, extra) ==
-  MkArch([rsize |-> rs, R |-> r, N |-> nm[1], M |-> nm[2], L |-> l, O |-> o, ops |-> ops], extra)
+ArchOf(rs, r, nm, l, o, ops, extra, mode) ==
+  MkArch([rsize |-> rs, R |-> r, N |-> nm[1], M |-> nm[2], L |-> l, O |-> o, ops |-> ops, mode |-> mode], extra)
 
 SmallLists == {OL1, OL2, OL3, OL4, OL5}
-BigLists   == OpLists \ SmallLists
+ModeLists  == {OL10}                      \* the opcodes whose location field depends on the mode
+BigLists   == OpLists \ (SmallLists \cup ModeLists)
 \* the full parameter product for the short opcode lists, a few parameter points for the long ones
 BigParams == {<<8, 1, <<1, 1>>, 1, 2, 0>>, <<16, 2, <<2, 3>>, 2, 3, 0>>, <<8, 3, <<3, 2>>, 3, 4, 3>>, <<4, 2, <<0, 1>>, 1, 1, 1>>}
-Archs == {ArchOf(rs, r, nm, l, o, ops, e) :
+Archs == {ArchOf(rs, r, nm, l, o, ops, e, "ha") :
             rs \in RSizes, r \in Rs, nm \in NMs, l \in Ls, o \in Os, ops \in SmallLists, e \in Extras}
-         \cup {ArchOf(p[1], p[2], p[3], p[4], p[5], ops, p[6]) : p \in BigParams, ops \in BigLists}
+         \cup {ArchOf(p[1], p[2], p[3], p[4], p[5], ops, p[6], "ha") : p \in BigParams, ops \in BigLists}
+         \cup {ArchOf(8, 1, <<1, 1>>, l, o, ops, e, mode) :
+                 l \in ModeLs, o \in Os, ops \in ModeLists, e \in Extras, mode \in {"ha", "vn", "hy"}}
 
 \* operand candidates: everything in range where the range is small, boundaries otherwise,
 \* and always at least one value that does not fit
@@ -35,6 +38,7 @@ Cand(a, kind) ==
     [] kind = "rom" -> {0, 1, Pow2(a.O) - 1, Pow2(a.O), Pow2(a.O) + 5}
     [] kind = "ram" -> {0, 1, Pow2(a.L) - 1, Pow2(a.L), Pow2(a.L) + 5}
     [] kind = "imm" -> {0, 1, Pow2(a.rsize - 1), Pow2(a.rsize) - 1, Pow2(a.rsize), Pow2(a.rsize) + 44}
+    [] kind = "loc" -> {0, 1, Pow2(LocBits(a)) - 1, Pow2(LocBits(a)), Pow2(LocBits(a)) + 5, 3, 7}
 
 RECURSIVE Prod(_, _)
 Prod(S, i) == IF i > Len(S) THEN {<<>>} ELSE {<<x>> \o t : x \in S[i], t \in Prod(S, i + 1)}
@@ -42,7 +46,8 @@ Prod(S, i) == IF i > Len(S) THEN {<<>>} ELSE {<<x>> \o t : x \in S[i], t \in Pro
 Tuples(a, op) == Prod([i \in 1 .. Len(Fmt[op]) |-> Cand(a, Fmt[op][i])], 1)
 
 \* a 0-bit RAM address field cannot hold any address: such opcodes need L >= 1
-Usable(a, op) == \A i \in 1 .. Len(Fmt[op]) : Fmt[op][i] = "ram" => a.L >= 1
+Usable(a, op) == ModeOK(a, op) /\ \A i \in 1 .. Len(Fmt[op]) : /\ (Fmt[op][i] = "ram" => a.L >= 1)
+                                                /\ (Fmt[op][i] = "loc" => LocBits(a) >= 1)
 
 ArchSeq == SetToSeq(Archs)
 
@@ -68,6 +73,31 @@ A == ArchSeq[row.ai]
 FixedWidth == row.ok => Len(row.word) = MaxWord(A)
 Lossless   == row.ok => Decode(A, row.word) = <<row.op, row.xs>>
 RangeCheck == row.ok <=> (\A i \in 1 .. Len(row.xs) : row.xs[i] < Limit(A, Fmt[row.op][i]))
+
+\* ---- whole programs: comment and blank lines produce no ROM word -------------------------------
+\* For every architecture a small source made of its first accepted instructions (as many as the
+\* ROM holds, at most 4) interleaved with comment and blank lines; the ROM image is the sequence
+\* of the words of the instruction lines, in order, and nothing else.
+OkRows(ai) == SetToSeq({r \in RowsOfArch(ai) : r.ok})
+CapOf(a) == IF a.mode = "ha" THEN Pow2(a.O) ELSE IF a.mode = "vn" THEN Pow2(a.L) ELSE Pow2(IF a.O > a.L THEN a.O ELSE a.L)
+ProgOf(ai) ==
+  LET rs == OkRows(ai)
+      cap == CapOf(ArchSeq[ai])
+      n == IF Len(rs) < 4 THEN (IF Len(rs) < cap THEN Len(rs) ELSE cap) ELSE (IF 4 < cap THEN 4 ELSE cap)
+      instr(i) == [k |-> "instr", op |-> rs[i].op, xs |-> rs[i].xs]
+      lines == <<[k |-> "comment"]>> \o
+               (IF n >= 1 THEN <<instr(1), [k |-> "blank"]>> ELSE <<>>) \o
+               (IF n >= 2 THEN <<instr(2), [k |-> "comment"], [k |-> "comment"]>> ELSE <<>>) \o
+               (IF n >= 3 THEN <<instr(3)>> ELSE <<>>) \o
+               (IF n >= 4 THEN <<[k |-> "blank"], instr(4), [k |-> "comment"]>> ELSE <<>>)
+  IN  [ai |-> ai, lines |-> lines, image |-> [i \in 1 .. n |-> rs[i].word]]
+Progs == [ai \in 1 .. Len(ArchSeq) |-> ProgOf(ai)]
+\* theorem: one ROM word per instruction line, each MaxWord wide
+ProgImageOK == \A ai \in 1 .. Len(ArchSeq) :
+                 /\ Len(Progs[ai].image) = Cardinality({i \in 1 .. Len(Progs[ai].lines) : Progs[ai].lines[i].k = "instr"})
+                 /\ \A i \in 1 .. Len(Progs[ai].image) : Len(Progs[ai].image[i]) = MaxWord(ArchSeq[ai])
+ASSUME ProgImageOK
+ASSUME ndJsonSerialize(IOEnv.PROGS, Progs)
 
 \* ---- export for the replay ------------------------------------------------------------------
 ASSUME ndJsonSerialize(IOEnv.ARCHS, ArchSeq)
